@@ -296,9 +296,9 @@ let judge_op relaxed name args got =
              else fail ("value " ^ rat_s src)
            | _ -> fail ("value " ^ rat_s src))
      | _, _ -> expect "panic DivideBy0" got)
-  (* TryFrom<T> for IBig / UBig: an RBig converts exactly when it is n/1 (n >= 0 for UBig); the property demands that an
-     integer-valued RBig is never refused; for Relaxed only the model is compared (stored pair n/1), the verdict is on the
-     values that do come back *)
+  (* TryFrom<T> for IBig / UBig: converts exactly when the VALUE is an integer (non-negative for UBig) - an integer-valued
+     number is never refused, RBig (stored n/1) and Relaxed (any stored pair: reduced first since /repo 4757027) alike;
+     model = the regenerated conversion on the stored pair *)
   | "tryint" ->
     (match opnd_spec 0, opnd_gen 0 with
      | Ok (n, d), Ok g ->
@@ -307,15 +307,9 @@ let judge_op relaxed name args got =
                      tok ((if relaxed then gen_UBig_try_from_Relaxed else gen_UBig_try_from_RBig) g) ] in
        let fidelity = "asis=" ^ (if model = got then "same" else "diff") in
        let is_int = Zar.equal d Zar.one in
-       if not relaxed then
-         expect ~extra:fidelity (String.concat " " [ "ok"; (if is_int then hx n else "err:LossOfPrecision");
-                                                      (if Zar.sign n < 0 then "err:OutOfBounds" else if is_int then hx n else "err:LossOfPrecision") ]) got
-       else (match got with
-           | [ "ok"; i; u ] ->
-             let ok_tok t = String.length t >= 4 && String.sub t 0 4 = "err:" || (is_int && t = hx n) in
-             if ok_tok i && ok_tok u then pass ~extra:(fidelity ^ (if is_int && i <> hx n then " cls=relaxed-integer-refused" else "")) ()
-             else fail "a-conversion-returned-a-different-value"
-           | _ -> fail "ok i u")
+       expect ~extra:(fidelity ^ (if is_int then " cls=tryint-integer" else " cls=tryint-fraction"))
+         (String.concat " " [ "ok"; (if is_int then hx n else "err:LossOfPrecision");
+                              (if Zar.sign n < 0 then "err:OutOfBounds" else if is_int then hx n else "err:LossOfPrecision") ]) got
      | r, _ -> expect (res_s rat_s r) got)
   (* serde: Deserialize from the struct form (the stored pair, possibly unreduced / zero denominator) and from the text n/d *)
   | "serde" ->
